@@ -235,9 +235,13 @@ func (g *Generator) generateFlattenedMarshal(
 	fieldGoName := variant.Field.GoName
 	fieldJSONName := variant.Field.Desc.JSONName()
 
-	gf.P("// Flatten: marshal variant via json.Marshal to invoke child MarshalJSON")
+	gf.P("// Flatten: raw holds the variant's proto3 JSON form; a variant with its own MarshalJSON encodes")
+	gf.P("// itself. encoding/json is not used on a plain message (it would write the Go struct tags).")
 	gf.P("if inner := x.Get", fieldGoName, "(); inner != nil {")
-	gf.P("variantData, varErr := json.Marshal(inner)")
+	gf.P(`variantData, varErr := []byte(raw["`, fieldJSONName, `"]), error(nil)`)
+	gf.P("if variantMarshaler, ok := any(inner).(json.Marshaler); ok {")
+	gf.P("variantData, varErr = variantMarshaler.MarshalJSON()")
+	gf.P("}")
 	gf.P("if varErr == nil {")
 	gf.P("var variantMap map[string]json.RawMessage")
 	gf.P("if json.Unmarshal(variantData, &variantMap) == nil {")
@@ -361,14 +365,16 @@ func (g *Generator) generateFlattenedUnmarshal(
 
 	gf.P("variantData, _ := json.Marshal(variantMap)")
 	gf.P("variant := &", msgType, "{}")
-	gf.P("if err := json.Unmarshal(variantData, variant); err != nil {")
-	gf.P(`return fmt.Errorf("failed to unmarshal variant %s: %w", "`, fieldGoName, `", err)`)
-	gf.P("}")
+	g.generateVariantUnmarshalCall(gf, "variantData", fieldGoName)
 	gf.P("x.", info.Oneof.GoName, " = &", wrapperType, "{", fieldGoName, ": variant}")
 
 	// Add the variant back to raw under its original field name for protojson
 	// (protojson expects the oneof wrapper format)
+	gf.P("if _, ok := any(variant).(json.Marshaler); ok {")
 	gf.P(`raw["`, fieldJSONName, `"], _ = json.Marshal(variant)`)
+	gf.P("} else {")
+	gf.P(`raw["`, fieldJSONName, `"], _ = protojson.Marshal(variant)`)
+	gf.P("}")
 }
 
 // generateNestedUnmarshal generates non-flattened unmarshal code for a message variant.
@@ -387,9 +393,23 @@ func (g *Generator) generateNestedUnmarshal(
 	gf.P("// Non-flattened unmarshal: use json.Unmarshal for child UnmarshalJSON support")
 	gf.P(`if variantRaw, exists := raw["`, fieldJSONName, `"]; exists {`)
 	gf.P("variant := &", msgType, "{}")
-	gf.P("if err := json.Unmarshal(variantRaw, variant); err != nil {")
-	gf.P(`return fmt.Errorf("failed to unmarshal variant %s: %w", "`, fieldGoName, `", err)`)
-	gf.P("}")
+	g.generateVariantUnmarshalCall(gf, "variantRaw", fieldGoName)
 	gf.P("x.", info.Oneof.GoName, " = &", wrapperType, "{", fieldGoName, ": variant}")
+	gf.P("}")
+}
+
+// generateVariantUnmarshalCall decodes dataVar into the local variable variant: a variant message with its
+// own UnmarshalJSON decodes itself (annotation composability), a plain message is decoded by protojson.
+// encoding/json is never used on a plain message: the Go struct tags are not the proto3 JSON names and
+// 64-bit integers, timestamps and enums would be misread.
+func (g *Generator) generateVariantUnmarshalCall(gf *protogen.GeneratedFile, dataVar, fieldGoName string) {
+	gf.P("var variantErr error")
+	gf.P("if variantUnmarshaler, ok := any(variant).(json.Unmarshaler); ok {")
+	gf.P("variantErr = variantUnmarshaler.UnmarshalJSON(", dataVar, ")")
+	gf.P("} else {")
+	gf.P("variantErr = protojson.Unmarshal(", dataVar, ", variant)")
+	gf.P("}")
+	gf.P("if variantErr != nil {")
+	gf.P(`return fmt.Errorf("failed to unmarshal variant %s: %w", "`, fieldGoName, `", variantErr)`)
 	gf.P("}")
 }
